@@ -181,6 +181,56 @@ class Producers:
                 found = st["init"]
         return found
 
+    def _pushes_ctx(self, f, name):
+        """[(pushed expression, [(condition, truth) ...enclosing ifs])] for `name.push(..)` / `name.push_str(..)` anywhere in f"""
+        out = []
+
+        def visit_expr(e, guards):
+            if not isinstance(e, dict):
+                return
+            k = e.get("k")
+            if k == "if":
+                c = e["cond"]
+                if c.get("k") != "letcond":
+                    visit_expr(c, guards)
+                    visit_stmts(e["then"], guards + [(c, True)])
+                    if e.get("else") is not None:
+                        visit_expr(e["else"], guards + [(c, False)])
+                else:
+                    visit_expr(c.get("expr"), guards)
+                    visit_stmts(e["then"], guards)
+                    if e.get("else") is not None:
+                        visit_expr(e["else"], guards)
+                return
+            if k == "block":
+                visit_stmts(e["stmts"], guards)
+                return
+            if k == "closure":
+                return
+            if k == "mcall" and e["method"] in ("push_str", "push") and expr_text(e["recv"]) == name and e["args"]:
+                out.append((e["args"][0], list(guards)))
+            from srclib import children
+            for c_ in children(e):
+                visit_expr(c_, guards)
+
+        def visit_stmts(stmts, guards):
+            for st in stmts or []:
+                for e in stmt_exprs(st):
+                    visit_expr(e, guards)
+        visit_stmts(f.body, [])
+        return out
+
+    def _loop_source(self, f, name):
+        """`for name in SRC.chars()` somewhere in f: SRC"""
+        for e in walk_block(f.body):
+            if e.get("k") == "for" and name in pat_bindings(e["pat"]):
+                it = e["iter"]
+                while it.get("k") in ("paren", "ref"):
+                    it = it["expr"]
+                if it.get("k") == "mcall" and it["method"] == "chars" and not it["args"]:
+                    return it["recv"]
+        return None
+
     def _pushes(self, f, name):
         out = []
         for e in walk_block(f.body):
@@ -277,6 +327,8 @@ class Producers:
                 out[var] = frozenset(["reserved"])          # one of the listed words: letters only
             elif removed == {"leaddigit"}:
                 out[var] = frozenset(cur - {"empty", "reserved"})
+            elif removed == {"<alnum>"}:
+                out[var] = frozenset(cur & {"leaddigit", "empty"})      # letters and digits of the source only
             elif removed == {"empty"}:
                 out[var] = frozenset(cur & {"empty"})
                 # `conv(y).is_empty()` holds only when y has no word characters (separators only): y keeps at most `empty`
@@ -287,7 +339,7 @@ class Producers:
                         y = y["expr"]
                     if y.get("k") == "path" and len(y["segs"]) == 1:
                         out[y["segs"][0]] = frozenset(set(self.expr(y, f, env_base, stack, depth + 1)) & {"empty"})
-        else:
+        elif removed != {"<alnum>"}:
             out[var] = frozenset(cur - removed)
         return out
 
@@ -462,7 +514,7 @@ class Producers:
             return self.expr(e["base"], f, env, stack, depth + 1)
         if k == "call":
             ft = expr_text(e["func"])
-            if ft in ("String::new", "Vec::new"):
+            if ft in ("String::new", "Vec::new", "String::with_capacity", "Vec::with_capacity", "String::default"):
                 return frozenset(["empty"])
             if ft in ("String::from", "Some", "Ok"):
                 return self.expr(e["args"][0], f, env, stack, depth + 1) if e["args"] else NONE
@@ -568,12 +620,28 @@ class Producers:
             init = self._let_init(f, v)
             if init is not None:
                 out = set(self.expr(init, f, env, stack, depth + 1))
-                pushes = self._pushes(f, v)
-                for a in pushes:
-                    out |= self.expr(a, f, env, stack, depth + 1)
-                if pushes:
+                pushes = self._pushes_ctx(f, v)
+                it = expr_text(init)
+                prefix = lit_str(init["args"][0]) if init.get("k") == "call" and it.startswith("String::from") and init.get("args") and lit_str(init["args"][0]) else None
+                cond_only = all(g for (_, g) in pushes) and bool(pushes)
+                for (a, guards) in pushes:
+                    env_a = env
+                    for (c_, truth_) in guards:
+                        env_a = self.refine(env_a, c_, truth_, f, env, stack, depth)
+                    ha = set(self.expr(a, f, env_a, stack, depth + 1))
+                    if prefix:
+                        # what follows a non-empty literal prefix can neither lead with a digit, be empty, nor be a reserved word on its own
+                        ha -= {"leaddigit", "empty", "reserved"}
+                    out |= ha
+                if pushes and not cond_only:
                     out.discard("empty")
+                if prefix:
+                    out -= {"empty", "reserved", "leaddigit"} - (lit_hazards(prefix) & {"leaddigit"})
                 return frozenset(out)
+            src = self._loop_source(f, v)
+            if src is not None:
+                # a character of SRC: whatever SRC may contain (narrowed by `is_alphanumeric()` guards through refine)
+                return frozenset(self.expr(src, f, env, stack, depth + 1))
             ty = self._param_ty(f, v)
             if ty is not None:
                 seed = PARAM_SEEDS.get((f.owner, f.name, v))
@@ -599,6 +667,9 @@ class Producers:
         if c.get("k") == "mcall" and c["method"] == "is_empty" and not c["args"]:
             v = var_of(c["recv"])
             return (v, {"empty"}) if v else None
+        if c.get("k") == "mcall" and c["method"] in ("is_alphanumeric", "is_ascii_alphanumeric") and not c["args"]:
+            v = var_of(c["recv"])
+            return (v, {"<alnum>"}) if v else None
         if c.get("k") == "mcall" and c["method"] == "starts_with" and len(c["args"]) == 1 and c["args"][0].get("k") == "closure" \
                 and re.search(r"is_ascii_digit\(\)|is_numeric\(\)|is_digit\(", expr_text(c["args"][0]["body"])):
             v = var_of(c["recv"])
